@@ -9,7 +9,8 @@ Only property statements and non-vacuity examples; lemmas are in Proofs/C10.lean
   parse    : precedence-climbing parser following Cypher.g4 and building what cypher/frontend builds
   norm     : erase parentheses, flatten same-operator lists, collapse one-element lists, expand kind matchers
 -/
-import Dawgs.Proofs.C10
+import Dawgs.Proofs.C10Q
+import Dawgs.Spec.C10Q
 namespace Dawgs.C10.Props
 open Dawgs.C10
 
@@ -328,6 +329,49 @@ example : prepare (qAnd [.kinds "r" ["A", "B"] true, rx]) = ([], some (qAnd [.ki
 example : prepare wNegKind = ([], some wNegKind) := by rfl
 example : prepare (qAnd [qNot rx, .paren (qAnd [rx, qKind "r" ["A", "B"]])]) =
     (["A", "B"], some (.join .and [qNot rx, .paren rx])) := by rfl
+
+/-! ### clause level: the whole query the builders assemble
+
+`Query` = MATCH pattern, WHERE criteria, the update builders (Create / Delete / SetProperty / SetProperties / AddKind(s) /
+DeleteKind(s) / DeleteProperty / DeleteProperties) and RETURN [DISTINCT] items ORDER BY … SKIP … LIMIT …;
+`emitQ` = formatSinglePartQuery as it is, `parseQ` builds what cypher/frontend builds. -/
+
+/-- the parser inverts the emitter on every well-formed query, exactly, up to the canonical form of the WHERE … -/
+theorem query_parse_emit (q : Query) (hv : validQ q = true) : parseQ (emitQ q) = some (canonQ q) := parseQ_emit q hv
+
+/-- … hence `builder_roundtrip` for whole queries: same pattern, same updates, same projection, and a WHERE with the
+same normal form -/
+theorem query_roundtrip (q : Query) (hv : validQ q = true) : (parseQ (emitQ q)).map normQ = some (normQ q) := by
+  rw [query_parse_emit q hv]; simp [normQ_canonQ]
+
+/-- Parameters lifted by Prepare: the `$` tokens of the emitted text are p0, p1, … in text order — the numbering is a
+function of the query's shape alone (deterministic), every occurrence gets its own name (pairwise distinct), and the
+map binds the i-th name to the i-th value handed to the builders (value-preserving). -/
+theorem prepare_parameters_preserved {V : Type} (q : Query) (hw : q.pattern = [] → q.where_ = none) (vals : List V)
+    (hl : vals.length = cntQ q) :
+    paramToks (emitQ (liftQ 0 q)) = (bindings 0 vals).map Prod.fst ∧
+    (bindings 0 vals).map Prod.snd = vals ∧
+    ((bindings 0 vals).map Prod.fst).Nodup := by
+  refine ⟨?_, bindings_snd vals 0, ?_⟩
+  · rw [paramToks_liftQ q hw 0, bindings_fst, hl]
+  · rw [bindings_fst]; exact names_nodup 0 _
+
+/-- the numbering does not depend on the names the parameters had before -/
+theorem lift_numbering (q : Query) (hw : q.pattern = [] → q.where_ = none) (n : Nat) :
+    paramToks (emitQ (liftQ n q)) = names n (cntQ q) := paramToks_liftQ q hw n
+
+def qExample : Query :=
+  ⟨[.node (some "s") [] none, .rel (some "r") [] none, .node none [] none],
+   some (qAnd [.cmp (.prop "r" "x") .eq (.param ""), qKind "r" ["A", "B"], qOr [.isNull (.prop "s" "y") false, .cmp (.param "") .isIn (.prop "s" "z")]]),
+   [.set [.prop "s" "a" (.param ""), .kinds "s" ["K"]], .remove [.prop "s" "c", .kinds "s" ["A", "B"]], .delete true ["r"],
+    .create [.node (some "n") ["A"] (some ""), .node (some "m") [] none]],
+   some ⟨true, [.op (.var "s"), .fnDistinct "count" (.var "r"), .op (.fn "id" (.var "s"))], [⟨.prop "s" "n", false⟩, ⟨.prop "s" "z", true⟩],
+     some (.lit (.int 5)), some (.lit (.int (-1)))⟩⟩
+
+example : validQ qExample = true ∧ cntQ qExample = 4 := ⟨rfl, rfl⟩
+example : paramToks (emitQ (liftQ 0 qExample)) = ["p0", "p1", "p2", "p3"] := by rfl
+example : ((prepareQ false qExample).map (fun q => q.pattern)) =
+    some [.node (some "s") [] none, .rel (some "r") ["A", "B"] none, .node none [] none] := by rfl
 
 /-! ### non-vacuity -/
 example : valid wAndXor = true ∧ safe wAndXor = false := ⟨rfl, rfl⟩
